@@ -15,10 +15,13 @@ import (
 	"context"
 	"encoding/json"
 	"fmt"
+	"os"
+	"reflect"
 	"sort"
 	"strings"
 
 	influxdb "github.com/influxdata/influxdb/v2"
+	"github.com/influxdata/influxdb/v2/bolt"
 	icontext "github.com/influxdata/influxdb/v2/context"
 	"github.com/influxdata/influxdb/v2/inmem"
 	"github.com/influxdata/influxdb/v2/kit/platform"
@@ -37,15 +40,15 @@ const sigPadded = "org-delete-leaves-index-entry-of-padded-name"
 // ---- case format ----
 
 type jop struct {
-	Op    string    `json:"op"`
-	ID    uint64    `json:"id,omitempty"`    // target / org of a bucket / resource of a mapping
-	User  uint64    `json:"user,omitempty"`  // user of a mapping
+	Op    string     `json:"op"`
+	ID    uint64     `json:"id,omitempty"`    // target / org of a bucket / resource of a mapping
+	User  uint64     `json:"user,omitempty"`  // user of a mapping
 	OName *[2]uint64 `json:"oname,omitempty"` // organization name (core, variant)
-	Name  *uint64   `json:"name,omitempty"`  // bucket / user name number
-	Sys   bool      `json:"sys,omitempty"`
-	Owner *uint64   `json:"owner,omitempty"`
-	RType uint64    `json:"rtype,omitempty"`
-	UType uint64    `json:"utype,omitempty"`
+	Name  *uint64    `json:"name,omitempty"`  // bucket / user name number
+	Sys   bool       `json:"sys,omitempty"`
+	Owner *uint64    `json:"owner,omitempty"`
+	RType uint64     `json:"rtype,omitempty"`
+	UType uint64     `json:"utype,omitempty"`
 }
 
 type jbucket struct {
@@ -55,24 +58,25 @@ type jbucket struct {
 	Sys  bool   `json:"sys"`
 }
 type jobs struct {
-	Err   uint64        `json:"err"`
-	Orgs  [][3]uint64   `json:"orgs"`  // id, core, variant
-	OIdx  [][3]uint64   `json:"oidx"`  // core, variant, id
-	Bkts  []jbucket     `json:"bkts"`
-	BIdx  [][3]uint64   `json:"bidx"`  // org, name, id
-	Users [][2]uint64   `json:"users"` // id, name
-	UIdx  [][2]uint64   `json:"uidx"`  // name, id
-	Pwds  []uint64      `json:"pwds"`
-	Urms  [][4]uint64   `json:"urms"`  // res, user, rtype, utype
-	UIx   [][4]uint64   `json:"uix"`   // user, res, value res, value user
-	LOrg  [][4]uint64   `json:"lorg"`  // core, variant, found(0/1), id
-	LBkt  [][4]uint64   `json:"lbkt"`  // org, name, found, id
-	LUsr  [][3]uint64   `json:"lusr"`  // name, found, id
-	ErrS  string        `json:"err_text,omitempty"`
+	Err   uint64      `json:"err"`
+	Orgs  [][3]uint64 `json:"orgs"` // id, core, variant
+	OIdx  [][3]uint64 `json:"oidx"` // core, variant, id
+	Bkts  []jbucket   `json:"bkts"`
+	BIdx  [][3]uint64 `json:"bidx"`  // org, name, id
+	Users [][2]uint64 `json:"users"` // id, name
+	UIdx  [][2]uint64 `json:"uidx"`  // name, id
+	Pwds  []uint64    `json:"pwds"`
+	Urms  [][4]uint64 `json:"urms"` // res, user, rtype, utype
+	UIx   [][4]uint64 `json:"uix"`  // user, res, value res, value user
+	LOrg  [][4]uint64 `json:"lorg"` // core, variant, found(0/1), id
+	LBkt  [][4]uint64 `json:"lbkt"` // org, name, found, id
+	LUsr  [][3]uint64 `json:"lusr"` // name, found, id
+	ErrS  string      `json:"err_text,omitempty"`
 }
 type jcase struct {
-	Ops []jop  `json:"ops"`
-	Obs []jobs `json:"impl_obs"`
+	Store string `json:"store,omitempty"` // "bolt": a bolt KV store in a temporary file instead of inmem
+	Ops   []jop  `json:"ops"`
+	Obs   []jobs `json:"impl_obs"`
 }
 
 // ---- names ----
@@ -151,21 +155,40 @@ func errClass(err error) uint64 {
 const ghostBase = 1000 // canonical ids >= ghostBase never exist
 
 type world struct {
-	ctx    context.Context
-	kv     kv.Store
-	svc    *tenant.Service
-	toReal map[uint64]platform.ID
-	toCan  map[platform.ID]uint64
-	next   uint64
-	orgs   []uint64 // canonical ids of all organizations ever created
-	bkts   []uint64
-	users  []uint64
-	bad    []string
+	ctx      context.Context
+	kv       kv.Store
+	svc      *tenant.Service
+	toReal   map[uint64]platform.ID
+	toCan    map[platform.ID]uint64
+	next     uint64
+	orgs     []uint64 // canonical ids of all organizations ever created
+	bkts     []uint64
+	users    []uint64
+	lastUrms [][4]uint64
+	userBkts []uint64    // live buckets of user type
+	live     [3][]uint64 // canonical ids of the live orgs / buckets / users (from the last dump)
+	bad      []string
 }
 
-func newWorld() *world {
+func newWorld(useBolt bool) *world {
 	ctx := context.Background()
-	s := inmem.NewKVStore()
+	var s kv.SchemaStore
+	cleanup := func() {}
+	if useBolt {
+		f, err := os.CreateTemp("", "c30-bolt-")
+		if err != nil {
+			panic(err)
+		}
+		f.Close()
+		b := bolt.NewKVStore(zap.NewNop(), f.Name(), bolt.WithNoSync)
+		if err := b.Open(ctx); err != nil {
+			panic(err)
+		}
+		s = b
+		cleanup = func() { b.Close(); os.Remove(f.Name()) }
+	} else {
+		s = inmem.NewKVStore()
+	}
 	if err := all.Up(ctx, zap.NewNop(), s); err != nil {
 		panic(err)
 	}
@@ -177,7 +200,7 @@ func newWorld() *world {
 	ts := mock.NewTaskService()
 	ts.FindTasksFn = func(context.Context, taskmodel.TaskFilter) ([]*taskmodel.Task, int, error) { return nil, 0, nil }
 	svc.Apply(tenant.WithTaskService(ts))
-	return &world{ctx: ctx, kv: s, svc: svc, toReal: map[uint64]platform.ID{}, toCan: map[platform.ID]uint64{}, next: 1}
+	return &world{ctx: ctx, kv: s, svc: svc, toReal: map[uint64]platform.ID{}, toCan: map[platform.ID]uint64{}, next: 1, cleanup: cleanup}
 }
 
 func (w *world) real(c uint64) platform.ID {
@@ -276,6 +299,16 @@ func (w *world) observe(err error) jobs {
 	for _, e := range rawUsers {
 		w.register(w.decID(e.k), 2)
 	}
+	w.live = [3][]uint64{}
+	for _, e := range rawOrgs {
+		w.live[0] = append(w.live[0], w.can(w.decID(e.k)))
+	}
+	for _, e := range rawBkts {
+		w.live[1] = append(w.live[1], w.can(w.decID(e.k)))
+	}
+	for _, e := range rawUsers {
+		w.live[2] = append(w.live[2], w.can(w.decID(e.k)))
+	}
 	for _, e := range rawOrgs {
 		var r influxdb.Organization
 		if json.Unmarshal(e.v, &r) != nil || r.ID != w.decID(e.k) {
@@ -372,6 +405,13 @@ func (w *world) observe(err error) jobs {
 		o.UIx = append(o.UIx, [4]uint64{w.can(w.decID(e.k[:L])), w.can(w.decID(e.k[L+1 : 2*L+1])),
 			w.can(w.decID(e.v[:L])), w.can(w.decID(e.v[L:]))})
 	}
+	w.lastUrms = o.Urms
+	w.userBkts = nil
+	for _, b := range o.Bkts {
+		if !b.Sys {
+			w.userBkts = append(w.userBkts, b.ID)
+		}
+	}
 	sort.Slice(o.Orgs, func(i, j int) bool { return less(o.Orgs[i][:1], o.Orgs[j][:1]) })
 	sort.Slice(o.OIdx, func(i, j int) bool { return less(o.OIdx[i][:2], o.OIdx[j][:2]) })
 	sort.Slice(o.Bkts, func(i, j int) bool { return o.Bkts[i].ID < o.Bkts[j].ID })
@@ -392,7 +432,7 @@ func (w *world) observe(err error) jobs {
 		}
 		return 1, w.can(id)
 	}
-	for _, p := range [][2]uint64{{1, 0}, {2, 0}, {3, 0}, {1, 1}, {2, 2}} {
+	for _, p := range [][2]uint64{{1, 0}, {2, 0}, {3, 0}, {1, 1}} {
 		n := orgName(p[0], p[1])
 		org, err := w.svc.FindOrganization(w.ctx, influxdb.OrganizationFilter{Name: &n})
 		var id platform.ID
@@ -405,7 +445,11 @@ func (w *world) observe(err error) jobs {
 		f, c := lookup(id, err)
 		o.LOrg = append(o.LOrg, [4]uint64{p[0], p[1], f, c})
 	}
-	for _, oc := range w.orgs {
+	porgs := w.orgs // the two most recently created organizations (live or deleted)
+	if len(porgs) > 2 {
+		porgs = porgs[len(porgs)-2:]
+	}
+	for _, oc := range porgs {
 		for _, bn := range []uint64{0, 5, 6} {
 			b, err := w.svc.FindBucketByName(w.ctx, w.real(oc), bktNames[bn])
 			var id platform.ID
@@ -502,89 +546,109 @@ func (w *world) apply(op jop) error {
 
 // ---- Gallina rendering ----
 
-func nn(a, b uint64) string { return "(" + vh.N(a) + ", " + vh.N(b) + ")" }
+func num(a uint64) string   { return fmt.Sprint(a) } // header opens N_scope: bare literals elaborate faster
+func nn(a, b uint64) string { return "(mk_nn " + num(a) + " " + num(b) + ")" }
+func app(f string, xs ...uint64) string {
+	var b strings.Builder
+	b.WriteString("(" + f)
+	for _, x := range xs {
+		b.WriteString(" " + num(x))
+	}
+	b.WriteString(")")
+	return b.String()
+}
+func nums(v []uint64) string {
+	xs := make([]string, len(v))
+	for i, c := range v {
+		xs[i] = num(c)
+	}
+	return vh.List(xs)
+}
 func optN(found, v uint64) string {
 	if found == 0 {
-		return "None"
+		return "nN"
 	}
-	return vh.Some(vh.N(v))
+	return "(sN " + num(v) + ")"
 }
 func optNp(p *uint64) string {
 	if p == nil {
 		return "None"
 	}
-	return vh.Some(vh.N(*p))
+	return vh.Some(num(*p))
 }
 func opTerm(o jop) string {
 	switch o.Op {
 	case "create_org":
-		return fmt.Sprintf("CreateOrg %s %s", nn(o.OName[0], o.OName[1]), optNp(o.Owner))
+		return fmt.Sprintf("CreateOrg %s %s", app("oN", o.OName[0], o.OName[1]), optNp(o.Owner))
 	case "update_org":
 		if o.OName == nil {
-			return fmt.Sprintf("UpdateOrg %s None", vh.N(o.ID))
+			return fmt.Sprintf("UpdateOrg %s None", num(o.ID))
 		}
-		return fmt.Sprintf("UpdateOrg %s (Some %s)", vh.N(o.ID), nn(o.OName[0], o.OName[1]))
+		return fmt.Sprintf("UpdateOrg %s (Some %s)", num(o.ID), app("oN", o.OName[0], o.OName[1]))
 	case "delete_org":
-		return "DeleteOrg " + vh.N(o.ID)
+		return "DeleteOrg " + num(o.ID)
 	case "create_bucket":
-		return fmt.Sprintf("CreateBucket %s %s %s", vh.N(o.ID), vh.N(*o.Name), vh.Bool(o.Sys))
+		return fmt.Sprintf("CreateBucket %s %s %s", num(o.ID), num(*o.Name), vh.Bool(o.Sys))
 	case "update_bucket":
-		return fmt.Sprintf("UpdateBucket %s %s", vh.N(o.ID), optNp(o.Name))
+		return fmt.Sprintf("UpdateBucket %s %s", num(o.ID), optNp(o.Name))
 	case "delete_bucket":
-		return "DeleteBucket " + vh.N(o.ID)
+		return "DeleteBucket " + num(o.ID)
 	case "create_user":
-		return "CreateUser " + vh.N(*o.Name)
+		return "CreateUser " + num(*o.Name)
 	case "update_user":
-		return fmt.Sprintf("UpdateUser %s %s", vh.N(o.ID), optNp(o.Name))
+		return fmt.Sprintf("UpdateUser %s %s", num(o.ID), optNp(o.Name))
 	case "delete_user":
-		return "DeleteUser " + vh.N(o.ID)
+		return "DeleteUser " + num(o.ID)
 	case "set_password":
-		return "SetPassword " + vh.N(o.ID)
+		return "SetPassword " + num(o.ID)
 	case "add_urm":
-		return fmt.Sprintf("AddURM %s %s %s", vh.N(o.ID), vh.N(o.User), nn(o.RType, o.UType))
+		return fmt.Sprintf("AddURM %s %s %s", num(o.ID), num(o.User), nn(o.RType, o.UType))
 	case "del_urm":
-		return fmt.Sprintf("DelURM %s %s", vh.N(o.ID), vh.N(o.User))
+		return fmt.Sprintf("DelURM %s %s", num(o.ID), num(o.User))
 	}
 	panic("op")
 }
-func obsTerm(o jobs) string {
+func obsTerm(o jobs, same bool) string {
+	if same {
+		return "(osame " + num(o.Err) + ")"
+	}
 	var orgs, oidx, bkts, bidx, users, uidx, urms, uix, lorg, lbkt, lusr []string
 	for _, e := range o.Orgs {
-		orgs = append(orgs, "("+vh.N(e[0])+", "+nn(e[1], e[2])+")")
+		orgs = append(orgs, app("mk_org", e[:]...))
 	}
 	for _, e := range o.OIdx {
-		oidx = append(oidx, "("+nn(e[0], e[1])+", "+vh.N(e[2])+")")
+		oidx = append(oidx, app("mk_oidx", e[:]...))
 	}
 	for _, b := range o.Bkts {
-		bkts = append(bkts, fmt.Sprintf("(%s, {| b_org := %s; b_name := %s; b_sys := %s |})", vh.N(b.ID), vh.N(b.Org), vh.N(b.Name), vh.Bool(b.Sys)))
+		bkts = append(bkts, fmt.Sprintf("(mk_bkt %d %d %d %s)", b.ID, b.Org, b.Name, vh.Bool(b.Sys)))
 	}
 	for _, e := range o.BIdx {
-		bidx = append(bidx, "("+nn(e[0], e[1])+", "+vh.N(e[2])+")")
+		bidx = append(bidx, app("mk_nnn", e[:]...))
 	}
 	for _, e := range o.Users {
-		users = append(users, nn(e[0], e[1]))
+		users = append(users, app("mk_nn", e[:]...))
 	}
 	for _, e := range o.UIdx {
-		uidx = append(uidx, nn(e[0], e[1]))
+		uidx = append(uidx, app("mk_nn", e[:]...))
 	}
 	for _, e := range o.Urms {
-		urms = append(urms, "("+nn(e[0], e[1])+", "+nn(e[2], e[3])+")")
+		urms = append(urms, app("mk_urm", e[:]...))
 	}
 	for _, e := range o.UIx {
-		uix = append(uix, "("+nn(e[0], e[1])+", "+nn(e[2], e[3])+")")
+		uix = append(uix, app("mk_urm", e[:]...))
 	}
 	for _, e := range o.LOrg {
-		lorg = append(lorg, "("+nn(e[0], e[1])+", "+optN(e[2], e[3])+")")
+		lorg = append(lorg, fmt.Sprintf("(mk_lk %d %d %s)", e[0], e[1], optN(e[2], e[3])))
 	}
 	for _, e := range o.LBkt {
-		lbkt = append(lbkt, "("+nn(e[0], e[1])+", "+optN(e[2], e[3])+")")
+		lbkt = append(lbkt, fmt.Sprintf("(mk_lk %d %d %s)", e[0], e[1], optN(e[2], e[3])))
 	}
 	for _, e := range o.LUsr {
-		lusr = append(lusr, "("+vh.N(e[0])+", "+optN(e[1], e[2])+")")
+		lusr = append(lusr, fmt.Sprintf("(mk_lu %d %s)", e[0], optN(e[1], e[2])))
 	}
-	return fmt.Sprintf("{| o_err := %s; o_orgs := %s; o_oidx := %s; o_bkts := %s; o_bidx := %s; o_users := %s; o_uidx := %s; o_pwds := %s; o_urms := %s; o_uix := %s; o_lorg := %s; o_lbkt := %s; o_lusr := %s |}",
-		vh.N(o.Err), vh.List(orgs), vh.List(oidx), vh.List(bkts), vh.List(bidx), vh.List(users), vh.List(uidx),
-		vh.Ns(o.Pwds), vh.List(urms), vh.List(uix), vh.List(lorg), vh.List(lbkt), vh.List(lusr))
+	return fmt.Sprintf("(Build_obs false %s %s %s %s %s %s %s %s %s %s %s %s %s)",
+		num(o.Err), vh.List(orgs), vh.List(oidx), vh.List(bkts), vh.List(bidx), vh.List(users), vh.List(uidx),
+		nums(o.Pwds), vh.List(urms), vh.List(uix), vh.List(lorg), vh.List(lbkt), vh.List(lusr))
 }
 
 // shape signature, decided from the operations only: the history deletes an organization
@@ -608,7 +672,8 @@ func sigOf(ops []jop) string {
 // run executes a history; gen (if non-nil) produces the next operation from the current
 // world (so that generated operations can refer to the ids that exist), otherwise c.Ops is replayed.
 func run(w *vh.W, c *jcase, length int, gen func(*world) jop) {
-	wd := newWorld()
+	wd := newWorld(c.Store == "bolt")
+	defer wd.cleanup()
 	c.Obs = nil
 	var panicked string
 	ops := c.Ops
@@ -640,14 +705,20 @@ func run(w *vh.W, c *jcase, length int, gen func(*world) jop) {
 	obsT := make([]string, len(c.Obs))
 	nontrivial := false
 	for i, o := range c.Obs {
-		obsT[i] = obsTerm(o)
+		same := false
+		if i > 0 {
+			a, b := c.Obs[i-1], o
+			a.Err, a.ErrS, b.Err, b.ErrS = 0, "", 0, ""
+			same = reflect.DeepEqual(a, b)
+		}
+		obsT[i] = obsTerm(o, same)
 		k := c.Ops[i].Op
 		if o.Err == 1 || (o.Err == 0 && (strings.HasPrefix(k, "delete") || strings.HasPrefix(k, "update") || k == "del_urm")) {
 			nontrivial = true
 		}
 	}
 	sig := sigOf(c.Ops)
-	idx := w.Add(fmt.Sprintf("{| c_ops := %s; c_obs := %s |}", vh.List(opsT), vh.List(obsT)), c, nontrivial, sig)
+	idx := w.Add(fmt.Sprintf("(Build_case %s %s)", vh.List(opsT), vh.List(obsT)), c, nontrivial, sig)
 	if panicked != "" {
 		w.Fail(idx, "panic in the tenant service: "+panicked, "")
 	}
@@ -655,15 +726,16 @@ func run(w *vh.W, c *jcase, length int, gen func(*world) jop) {
 		w.Fail(idx, "malformed store content: "+strings.Join(wd.bad, "; "), "")
 	}
 	w.Count("len", fmt.Sprint(len(c.Ops)))
+	w.Count("store", "inmem"+c.Store)
 	w.Count("sig", sig)
 }
 
-func up(v uint64) *uint64 { return &v }
+func up(v uint64) *uint64       { return &v }
 func on(c, v uint64) *[2]uint64 { return &[2]uint64{c, v} }
 
 func main() {
-	w := vh.New("C30", "From Verif Require Import Base.Prelude Model.C30.", "case", "check")
-	w.Rule = "histories (1-12 operations) of create/rename/describe/delete organization (3 names x {plain, blank-padded}, empty name; optional owner from the caller's context), create/rename/delete bucket (3 ordinary names, _tasks, _monitoring, another underscore name, a quoted name, the empty name; user or system type), create/rename/delete user (3 names), set password, add/remove user-resource mapping (on organizations, buckets, never-existing ids), through the real tenant.Service on inmem KV; targets are drawn from the ids created so far (live or already deleted) and never-existing ids; hand-picked histories first. After every operation: error class, dump of the 9 KV buckets, FindOrganization/FindBucketByName/FindUser lookups. Non-trivial: some operation reports a conflict or a rename/delete/unmapping succeeds. Distinct: distinct Gallina terms."
+	w := vh.New("C30", "From Verif Require Import Base.Prelude Model.C30.\nOpen Scope N_scope.", "case", "check")
+	w.Rule = "histories (1-12 operations) of create/rename/describe/delete organization (3 names x {plain, blank-padded}, empty name; optional owner from the caller's context), create/rename/delete bucket (3 ordinary names, _tasks, _monitoring, another underscore name, a quoted name, the empty name; user or system type), create/rename/delete user (3 names), set password, add/remove user-resource mapping (on organizations, buckets, never-existing ids), through the real tenant.Service on inmem KV (hand-picked histories also, and 1 in 8 random ones instead, on a bolt KV store in a temporary file); targets are drawn from the ids created so far (live or already deleted) and never-existing ids; hand-picked histories first; n>=5000 (thorough) adds ALL 10^4 histories of length 4 over 10 symbolic operations (create org plain/padded, rename/delete the first org, create/rename/delete the first user bucket, create/delete the first user, map the first user to the first bucket or org), every prefix observed. After every operation: error class, dump of the 9 KV buckets, FindOrganization/FindBucketByName/FindUser lookups. Non-trivial: some operation reports a conflict or a rename/delete/unmapping succeeds. Distinct: distinct Gallina terms."
 	var rc jcase
 	if w.ReplayCase(&rc) {
 		run(w, &rc, 0, nil)
@@ -693,12 +765,31 @@ func main() {
 		c := jcase{Ops: h}
 		run(w, &c, 0, nil)
 	}
+	for _, h := range hand { // the same on a real bolt store (transactions roll back)
+		c := jcase{Ops: h, Store: "bolt"}
+		run(w, &c, 0, nil)
+	}
 	r := w.Rng
-	pick := func(xs []uint64, ghostP int) uint64 {
-		if len(xs) == 0 || r.IntN(ghostP) == 0 {
+	// target ids: mostly live ones, sometimes already deleted ones, sometimes never-existing ones
+	pickw := func(wd *world, kinds []int, ghostP int) uint64 {
+		var live, all []uint64
+		if len(kinds) == 1 && kinds[0] == 1 && len(wd.userBkts) > 0 && r.IntN(3) != 0 {
+			return wd.userBkts[r.IntN(len(wd.userBkts))]
+		}
+		for _, k := range kinds {
+			live = append(live, wd.live[k]...)
+			all = append(all, [][]uint64{wd.orgs, wd.bkts, wd.users}[k]...)
+		}
+		if len(all) == 0 && r.IntN(8) != 0 {
+			return 0 // nothing of this kind yet: draw another operation
+		}
+		if len(all) == 0 || r.IntN(ghostP) == 0 {
 			return ghostBase + uint64(r.IntN(2))
 		}
-		return xs[r.IntN(len(xs))]
+		if len(live) > 0 && r.IntN(6) != 0 {
+			return live[r.IntN(len(live))]
+		}
+		return all[r.IntN(len(all))]
 	}
 	oname := func() *[2]uint64 {
 		c := uint64(1 + r.IntN(3))
@@ -718,60 +809,124 @@ func main() {
 		return up(uint64(5 + r.IntN(3)))
 	}
 	pwLeft := 0
+	var draw func(wd *world) jop
 	gen := func(wd *world) jop {
+		for {
+			o := draw(wd)
+			needsID := o.Op != "create_org" && o.Op != "create_user"
+			if (needsID && o.ID == 0) || ((o.Op == "add_urm" || o.Op == "del_urm") && o.User == 0) {
+				continue // nothing of the needed kind exists yet
+			}
+			if o.Owner != nil && *o.Owner == 0 {
+				o.Owner = nil
+			}
+			return o
+		}
+	}
+	draw = func(wd *world) jop {
 		for {
 			switch k := r.IntN(100); {
 			case k < 12:
 				o := jop{Op: "create_org", OName: oname()}
 				if r.IntN(4) == 0 {
-					o.Owner = up(pick(wd.users, 5))
+					o.Owner = up(pickw(wd, []int{2}, 5))
 				}
 				if len(wd.orgs) >= 4 {
 					continue
 				}
 				return o
 			case k < 22:
-				o := jop{Op: "update_org", ID: pick(wd.orgs, 12)}
+				o := jop{Op: "update_org", ID: pickw(wd, []int{0}, 14)}
 				if r.IntN(6) != 0 {
 					o.OName = oname()
 				}
 				return o
 			case k < 30:
-				return jop{Op: "delete_org", ID: pick(wd.orgs, 12)}
+				return jop{Op: "delete_org", ID: pickw(wd, []int{0}, 14)}
 			case k < 44:
-				return jop{Op: "create_bucket", ID: pick(wd.orgs, 12), Name: bname(), Sys: r.IntN(10) == 0}
+				return jop{Op: "create_bucket", ID: pickw(wd, []int{0}, 14), Name: bname(), Sys: r.IntN(10) == 0}
 			case k < 56:
-				o := jop{Op: "update_bucket", ID: pick(wd.bkts, 12)}
+				o := jop{Op: "update_bucket", ID: pickw(wd, []int{1}, 14)}
 				if r.IntN(6) != 0 {
 					o.Name = bname()
 				}
 				return o
 			case k < 63:
-				return jop{Op: "delete_bucket", ID: pick(wd.bkts, 12)}
+				return jop{Op: "delete_bucket", ID: pickw(wd, []int{1}, 14)}
 			case k < 71:
 				return jop{Op: "create_user", Name: up(uint64(1 + r.IntN(3)))}
 			case k < 78:
-				o := jop{Op: "update_user", ID: pick(wd.users, 12)}
+				o := jop{Op: "update_user", ID: pickw(wd, []int{2}, 14)}
 				if r.IntN(6) != 0 {
 					o.Name = up(uint64(1 + r.IntN(3)))
 				}
 				return o
 			case k < 83:
-				return jop{Op: "delete_user", ID: pick(wd.users, 12)}
+				return jop{Op: "delete_user", ID: pickw(wd, []int{2}, 14)}
 			case k < 85:
 				if pwLeft == 0 { // bcrypt is slow: at most one per history
 					continue
 				}
 				pwLeft--
-				return jop{Op: "set_password", ID: pick(wd.users, 6)}
+				return jop{Op: "set_password", ID: pickw(wd, []int{2}, 6)}
 			case k < 95:
-				res := append(append([]uint64{}, wd.orgs...), wd.bkts...)
-				return jop{Op: "add_urm", ID: pick(res, 8), User: pick(wd.users, 10), RType: uint64(r.IntN(2)), UType: uint64(r.IntN(2))}
+				return jop{Op: "add_urm", ID: pickw(wd, []int{0, 1}, 10), User: pickw(wd, []int{2}, 12), RType: uint64(r.IntN(2)), UType: uint64(r.IntN(2))}
 			default:
-				res := append(append([]uint64{}, wd.orgs...), wd.bkts...)
-				return jop{Op: "del_urm", ID: pick(res, 8), User: pick(wd.users, 10)}
+				if len(wd.lastUrms) > 0 && r.IntN(4) != 0 {
+					e := wd.lastUrms[r.IntN(len(wd.lastUrms))]
+					return jop{Op: "del_urm", ID: e[0], User: e[1]}
+				}
+				return jop{Op: "del_urm", ID: pickw(wd, []int{0, 1}, 8), User: pickw(wd, []int{2}, 10)}
 			}
 		}
+	}
+	if w.N >= 5000 { // thorough: ALL histories of length 4 over 10 symbolic operations (every prefix is observed)
+		first := func(xs []uint64) uint64 {
+			if len(xs) == 0 {
+				return ghostBase
+			}
+			return xs[0]
+		}
+		alpha := []func(wd *world) jop{
+			func(wd *world) jop { return jop{Op: "create_org", OName: on(1, 0)} },
+			func(wd *world) jop { return jop{Op: "create_org", OName: on(1, 1)} },
+			func(wd *world) jop { return jop{Op: "update_org", ID: first(wd.live[0]), OName: on(2, 0)} },
+			func(wd *world) jop { return jop{Op: "delete_org", ID: first(wd.orgs)} },
+			func(wd *world) jop { return jop{Op: "create_bucket", ID: first(wd.live[0]), Name: up(5)} },
+			func(wd *world) jop { return jop{Op: "update_bucket", ID: first(wd.userBkts), Name: up(6)} },
+			func(wd *world) jop { return jop{Op: "delete_bucket", ID: first(wd.userBkts)} },
+			func(wd *world) jop { return jop{Op: "create_user", Name: up(1)} },
+			func(wd *world) jop { return jop{Op: "delete_user", ID: first(wd.users)} },
+			func(wd *world) jop {
+				res := first(wd.userBkts)
+				if res == ghostBase {
+					res = first(wd.live[0])
+				}
+				return jop{Op: "add_urm", ID: res, User: first(wd.live[2]), RType: 1}
+			},
+		}
+		const L = 4
+		idx := make([]int, L)
+		cnt := 0
+		for {
+			pos := 0
+			c := jcase{}
+			run(w, &c, L, func(wd *world) jop { o := alpha[idx[pos]](wd); pos++; return o })
+			cnt++
+			k := L - 1
+			for k >= 0 {
+				idx[k]++
+				if idx[k] < len(alpha) {
+					break
+				}
+				idx[k] = 0
+				k--
+			}
+			if k < 0 {
+				break
+			}
+		}
+		w.Extra["exhaustive_len4_over_10_symbolic_ops"] = cnt
 	}
 	for w.Len() < w.N {
 		pwLeft = 0
@@ -779,6 +934,9 @@ func main() {
 			pwLeft = 1
 		}
 		c := jcase{}
+		if r.IntN(8) == 0 {
+			c.Store = "bolt"
+		}
 		run(w, &c, 1+r.IntN(12), gen)
 	}
 	w.Finish()
